@@ -409,8 +409,31 @@ func init() {
 				}
 				return c14Check(r, s, "mutation")
 			}},
+			{Name: "long", Count: countFn(40, 1200), Run: func(ctx *core.Ctx, idx int) core.Result {
+				// inputs of 64..160 KiB (positions beyond any 16 bit field), built from the same soup
+				r := core.CaseRng(ctx.Seed, "C14/long", idx)
+				var sb strings.Builder
+				target := r.Range(65000, 160000)
+				if idx%4 == 0 {
+					sb.WriteString("; " + strings.Repeat("c", r.Range(65500, 70000)) + "\n") // one long comment first
+				}
+				for sb.Len() < target {
+					t := genLexText(r)
+					// only pieces the token table accepts (one bad character would turn the whole text into a rejection)
+					if _, ok := refScan(t); !ok || strings.Contains(t, "\x00") || runLexer(t).Err != "" {
+						continue
+					}
+					sb.WriteString(t)
+					sb.WriteString("\n")
+				}
+				res := c14Check(r, sb.String(), "long")
+				if res.Count["accepted_inputs"] > 0 {
+					res.Add("long_inputs_accepted", 1)
+				}
+				return res
+			}},
 		},
-		Floors: []core.Floor{{Key: "accepted_inputs", Quick: 20000, Thor: 2000000}, {Key: "layout_variants", Quick: 20000, Thor: 2000000}, {Key: "tag:kind:", Quick: 7, Thor: 7}, {Key: "nontrivial", Quick: 15000, Thor: 1500000}},
+		Floors: []core.Floor{{Key: "long_inputs_accepted", Quick: 30, Thor: 900}, {Key: "accepted_inputs", Quick: 20000, Thor: 2000000}, {Key: "layout_variants", Quick: 20000, Thor: 2000000}, {Key: "tag:kind:", Quick: 7, Thor: 7}, {Key: "nontrivial", Quick: 15000, Thor: 1500000}},
 	})
 	core.MaxInconclusivePct["C14"] = 10
 }
